@@ -76,14 +76,25 @@ type CaseWhen struct{ Cond, Then Expr }
 // ---------- SELECT ----------
 
 type Select struct {
-	Items    []SelItem
-	From     []FromItem // comma separated = cross join
-	Where    Expr
-	OrderBy  []OrderKey
-	Limit    Expr
-	Offset   Expr
-	UnionAll *Select  // next arm of a UNION ALL chain
-	Into     []Target // PL/pgSQL SELECT ... INTO
+	With       []CTE  // WITH list (belongs to the whole UNION chain)
+	Recursive  bool   // WITH RECURSIVE
+	DistinctOn []Expr // DISTINCT ON (...)
+	GroupBy    []Expr
+	Items      []SelItem
+	From       []FromItem // comma separated = cross join
+	Where      Expr
+	OrderBy    []OrderKey
+	Limit      Expr
+	Offset     Expr
+	UnionAll   *Select  // next arm of a UNION ALL chain
+	Into       []Target // PL/pgSQL SELECT ... INTO
+}
+
+// CTE is one WITH list entry.
+type CTE struct {
+	Name string
+	Cols []string
+	Sel  *Select
 }
 
 type SelItem struct {
@@ -105,13 +116,14 @@ type (
 		Schema, Name, Alias string
 	}
 	SubqueryRef struct {
-		Sel   *Select
-		Alias string
+		Sel     *Select
+		Alias   string
+		Lateral bool
 	}
 	FuncRef struct {
 		Call       *FuncCall
 		Alias      string
-		ColAliases []string
+		ColAliases []string // functions in FROM are implicitly LATERAL
 	}
 	JoinRef struct {
 		Left, Right FromItem
